@@ -9,7 +9,7 @@ INFO = {
                   'rtamt.semantics.discrete_time_interpreter.DiscreteTimeInterpreter.time_unit_transformer / update_sampling_violation_counter',
                   'rtamt.syntax.ast.visitor.{ltl,stl}.ast_visitor dispatch', 'rtamt.syntax.ast.parser.{ltl,stl}.parser_visitor (concrete texts)'],
     'bounds': {'quick': 'F1: every operator x bounds (0,0)(0,1)(0,2)(1,1)(1,2)(1,3)(2,2) x N in 1,2,3,4,6; F2 depth-2 sample 6%; '
-                        'both offline classes; time-stamps symbolic (free origin; free gaps for N<=3)',
+                        'both offline classes; time-stamps symbolic (free origin; free gaps for N<=3); the shared pool of 43 notation cases (vf/pool.py) against rho_dt',
                'thorough': 'F1: bounds all 0<=a<=b<=4,(0,6),(3,6) x N in 1..8,10; F2 exhaustive (reduced bounds) N in 3,5; '
                            'F3 seeded depth 3-4'},
     'outside': 'trace length, bounds and nesting depth beyond the above; IEEE rounding; sqrt/exp/ln/pow/log are uninterpreted (wiring only)',
